@@ -1,12 +1,13 @@
 SPECIFICATION CSpec
 CONSTANTS
-  Seeds = {"s1", "s2"}
+  Seeds = {"s1"}
   Epochs = {1}
   ShardIds = {0}
-  Classes = {"plain", "rater"}
-  MCKeys = {1, 2, 3}
+  Classes = {"rater"}
+  MCKeys = {1, 2}
   MCChances = {1, 2}
   MaxLen = 2
+  MaxCh = 2
   ClearOnPrepare = TRUE
 INVARIANTS Inv_C15_GroupSize Inv_C15_GroupDistinct Inv_C15_GroupMembers Inv_C15_NoError Inv_C15_Reproducible
 CHECK_DEADLOCK FALSE
